@@ -20,7 +20,8 @@ META["C11"] = {
 }
 
 PROG = {
-    "a.f90": ["module mod_a", "integer :: count", "type stack", "integer :: items", "integer :: count", "contains",
+    "a.f90": ["module mod_a", "integer :: count", "abstract interface", "function area_fn(r)", "real :: r, area_fn", "end function area_fn",
+              "end interface", "type stack", "integer :: items", "integer :: count", "contains",
               "procedure :: push", "end type stack", "contains",
               "subroutine push(self)", "class(stack) :: self", "end subroutine push",
               "subroutine work(n)", "integer :: n", "contains", "function scale(x)", "real :: x, scale", "end function scale",
@@ -31,7 +32,8 @@ PSET = dict(proc_internals=True, display=["public", "private", "protected"])
 
 # abstract description of what the program declares: entity path -> (kind, {child kind: [names]})
 TREE = {
-    "mod_a": ("module", {"variable": ["count"], "type": ["stack"], "subroutine": ["push", "work"]}),
+    "mod_a": ("module", {"variable": ["count"], "type": ["stack"], "subroutine": ["push", "work"], "absinterface": ["area_fn"]}),
+    "mod_a/area_fn": ("absinterface", {}),
     "mod_a/stack": ("type", {"variable": ["items", "count"], "bound": ["push"]}),
     "mod_a/push": ("subroutine", {"variable": ["self"]}),
     "mod_a/work": ("subroutine", {"variable": ["n"], "function": ["scale"]}),
@@ -45,9 +47,12 @@ PROJECT_LEVEL = {  # what Project.find searches: kind -> {name: path}
     "module": {"mod_a": "mod_a", "mod_b": "mod_b"},
     "type": {"stack": "mod_a/stack"},
     "procedure": {"push": "mod_a/push", "work": "mod_a/work", "scale": "mod_b/scale"},
+    "absinterface": {"area_fn": "mod_a/area_fn"},
 }
-KIND_SYN = {"procedure": "procedure", "proc": "procedure", "subroutine": "procedure", "function": "procedure", "type": "type", "module": "module"}
-CHILD_OK = {"variable": ("variable",), "function": ("function",), "subroutine": ("subroutine",), "type": ("type",), "bound": ("bound",)}
+KIND_SYN = {"procedure": "procedure", "proc": "procedure", "subroutine": "procedure", "function": "procedure", "type": "type", "module": "module",
+            "interface": "absinterface", "absinterface": "absinterface"}
+CHILD_OK = {"variable": ("variable",), "function": ("function",), "subroutine": ("subroutine",), "type": ("type",), "bound": ("bound",),
+            "absinterface": ("absinterface",)}
 
 CONTEXTS = ["mod_a", "mod_a/stack", "mod_a/stack/items", "mod_a/stack/push", "mod_a/work", "mod_a/work/n", None]
 
@@ -62,6 +67,9 @@ LINKS = [
     ("[[mod_b]]", "mod_b", None, None, None), ("[[mod_b(module):scale]]", "mod_b", "module", "scale", None),
     ("[[mod_b:scale(function)]]", "mod_b", None, "scale", "function"), ("[[work]]", "work", None, None, None),
     ("[[push]]", "push", None, None, None), ("[[nowhere]]", "nowhere", None, None, None), ("[[stack:nowhere]]", "stack", None, "nowhere", None),
+    ("[[area_fn]]", "area_fn", None, None, None), ("[[area_fn(interface)]]", "area_fn", "interface", None, None),
+    ("[[area_fn(absinterface)]]", "area_fn", "absinterface", None, None), ("[[AREA_FN(Interface)]]", "area_fn", "interface", None, None),
+    ("[[mod_a:area_fn(absinterface)]]", "mod_a", None, "area_fn", "absinterface"),
 ]
 
 
@@ -98,7 +106,8 @@ def select(ctx_path, name, kind, child, child_kind):
         for scope in (ctx_path, ctx_path.rsplit("/", 1)[0] if "/" in ctx_path else None):
             if scope is None or item is not None:
                 continue
-            if kind is not None and (kind not in ("variable", "type", "function", "subroutine", "bound") or not _can_hold(scope, kind)):
+            if kind is not None and (kind not in ("variable", "type", "function", "subroutine", "bound", "absinterface", "interface")
+                                     or not _can_hold(scope, kind)):
                 continue
             for n, p in _children(scope, kind):
                 if n == name:
@@ -113,7 +122,7 @@ def select(ctx_path, name, kind, child, child_kind):
         k = KIND_SYN.get(kind) if kind else None
         if kind is not None and k is None:
             return "ERROR"
-        cands = [PROJECT_LEVEL[k]] if k else [PROJECT_LEVEL["module"], PROJECT_LEVEL["type"], PROJECT_LEVEL["procedure"]]
+        cands = [PROJECT_LEVEL[k]] if k else [PROJECT_LEVEL["module"], PROJECT_LEVEL["type"], PROJECT_LEVEL["procedure"], PROJECT_LEVEL["absinterface"]]
         for tab in cands:
             if name in tab:
                 item = tab[name]
@@ -132,7 +141,7 @@ def _entity(project, path):
     ent = [m for m in project.modules if m.name == parts[0]][0]
     for p_ in parts[1:]:
         nxt = None
-        for l in ("types", "subroutines", "functions", "variables", "boundprocs", "args"):
+        for l in ("types", "subroutines", "functions", "variables", "boundprocs", "args", "absinterfaces"):
             for c in getattr(ent, l, []) or []:
                 if getattr(c, "name", None) == p_:
                     nxt = c
